@@ -51,6 +51,10 @@ class World(object):
         cfg_ = gamma.Config.draw(rng, ndims=3, payload="tame")
         sgn = (sc["origin"] > 0) - (sc["origin"] < 0)
         cfg_.origin = tuple(0.0 if sgn == 0 else sgn * abs(rng.choice([0.3, 1.1, 2.0, 0.05, 7.7])) for _ in range(3))
+        if cfgseed % 5 == 1 and sgn != 0:
+            # a domain FAR from the origin of the coordinates compared with its cells (|x| / dx of 1e5 .. 1e7): a tolerance relative
+            # to the coordinate is then wider than a cell
+            cfg_.origin = tuple(sgn * m for m in rng.sample([5000.0, 81234.5, 3.0e5], 3))
         if cfgseed % 4 == 0:
             # a domain placed so that the cell centres of the FINEST level are whole numbers (cell sizes 1, 2, 1 there, lower
             # corner half a cell below a whole number): a user then naturally types the point as integers
@@ -131,7 +135,10 @@ def run_scenario(chk, world, sc, cfgseed, axes, sel):
             if not np.all(np.isfinite(flds.level(l, fi))):
                 continue          # a field with nan / inf cells: its own spline is undefined, only the OTHER fields are judged
             scale = float(np.max(np.abs(flds.level(l, fi))))
-            if not abs(g - want) <= 1e-9 * scale:
+            # the typed coordinate itself is rounded: |x| * eps / dx of a cell, which a spline turns into that fraction of the
+            # field's variation (only visible for domains far from the origin of the coordinates)
+            far = max(abs(float(p)) for p in point) * 2.3e-16 / min(dx)
+            if not abs(g - want) <= (1e-9 + 100.0 * far) * scale:
                 return "query %d of %d on one selector (%r) at the centre of level-%d cell %r (origin %r): %r, stored value %r" % (
                     qi + 1, len(sc["asked"]), sel, l, idx, cfg_.origin, float(g), want)
     return None
@@ -163,12 +170,15 @@ def run(chk, replay):
     chosen = util.select(scenarios, cap, chk.rng)
     chk.exhaustive = len(chosen) == len(scenarios)
     perms = [(0, 1, 2), (1, 2, 0), (2, 0, 1), (0, 2, 1), (1, 0, 2), (2, 1, 0)]
-    seeds = [chk.rng.randrange(1 << 30) for _ in range(2)]
+    # configuration seeds covering every residue class the concretisation branches on (mod 2, 3, 4, 5); a plotfile is written per
+    # (mesh, seed) and serves eight consecutive scenarios
+    base = chk.rng.randrange(1 << 20) * 60
+    seeds = [base + k for k in (0, 1, 2, 3, 5, 6, 7, 11, 16, 21, 31, 46)]
     chosen.sort(key=lambda s: core.jdump(s["mesh"]))
     for i, sc in enumerate(chosen):
         axes = perms[hash(core.jdump(sc["mesh"])) % 6]
         sel = SELS[i % len(SELS)]
-        cfgseed = seeds[i % 2]
+        cfgseed = seeds[(i // 8) % len(seeds)]
         v = run_scenario(chk, world, sc, cfgseed, axes, sel)
         sigs = util.sig_str(sc["sig"], "list" if isinstance(sel, list) else type(sel).__name__, axes)
         triv = sc["sig"][0] == 1 and sc["sig"][3] == "origin0"
